@@ -41,7 +41,7 @@ def parseFail (j : Json) : Except String (Option (Nat × Exc)) := do
 
 def parseSrc (j : Json) : Except String Src := do
   match getOpt j "fresh", getOpt j "existing", getOpt j "const" with
-  | some k, _, _ => return .fresh (← parseKind k) (← parseFail j)
+  | some k, _, _ => return .fresh (← parseKind k) (← parseFail j) ((getOpt j "tf").bind (·.getBool?.toOption) |>.getD false)
   | _, some g, _ => return .existing (← g.getNat?)
   | _, _, some v => return .const (← v.getInt?)
   | _, _, _ => throw "bad src"
@@ -125,7 +125,7 @@ def jEv (e : OEv) : Json := Json.mkObj [
   ("tag", Json.str e.tag), ("res", jRes e.res), ("clock", jSnap e.clock), ("caches", jCaches e.caches),
   ("touched", match e.touched with
      | none => Json.null
-     | some t => Json.arr #[toJson t.g, jKind t.kind]),
+     | some t => Json.arr #[toJson t.g, jKind t.kind, Json.bool t.own]),
   ("gens", Json.arr (e.gens.map toJson).toArray)]
 
 def parseOV (j : Json) : Except String OV := do
@@ -165,7 +165,7 @@ def parseEv (j : Json) : Except String OEv := do
     | none => pure none
     | some t => do
       let a ← t.getArr?
-      pure (some { g := ← a[0]!.getNat?, kind := ← parseKind a[1]! : Touched })
+      pure (some { g := ← a[0]!.getNat?, kind := ← parseKind a[1]!, own := (a[2]?.bind (·.getBool?.toOption)).getD false : Touched })
   return { tag := ← getStr j "tag", res := ← parseRes (← j.getObjVal? "res"),
            clock := ← parseSnap (← j.getObjVal? "clock"), caches := ← parseCaches (← j.getObjVal? "caches"),
            touched := touched, gens := ← (← getArr j "gens").toList.mapM (·.getNat?) }
@@ -204,12 +204,12 @@ def handle (req : Json) : Except String Json := do
   let branches := (evs.map fun e =>
       let kind := (e.tag.splitOn ":").headD ""
       let what := match e.touched, e.res with
-        | some { g := _, kind := .td _ _ }, .ok .none => ":td:placeholder"
-        | some { g := _, kind := .td _ _ }, .ok _ => ":td"
-        | some { g := _, kind := .sampled _ _ _ _ }, .ok .none => ":sm:placeholder"
-        | some { g := _, kind := .sampled _ _ _ _ }, .ok _ => ":sm"
-        | some { g := _, kind := .stream _ }, .ok .none => ":st:placeholder"
-        | some { g := _, kind := .stream _ }, .ok _ => ":st"
+        | some { g := _, kind := .td _ _, own := _ }, .ok .none => ":td:placeholder"
+        | some { g := _, kind := .td _ _, own := _ }, .ok _ => ":td"
+        | some { g := _, kind := .sampled _ _ _ _, own := _ }, .ok .none => ":sm:placeholder"
+        | some { g := _, kind := .sampled _ _ _ _, own := _ }, .ok _ => ":sm"
+        | some { g := _, kind := .stream _, own := _ }, .ok .none => ":st:placeholder"
+        | some { g := _, kind := .stream _, own := _ }, .ok _ => ":st"
         | _, .raised e => s!":raised:{e}"
         | _, .ok (.const _) => ":const"
         | _, _ => ""
